@@ -71,6 +71,8 @@ def gen_history(rnd: random.Random, flavor: dict) -> dict:
         r = rnd.random()
         if r < 0.5:
             mspec["max_attempts"] = rnd.choice([1, 2, 3, 20])
+        if rnd.random() < flavor.get("via_copy", 0.1):
+            mspec["via_copy"] = True  # the simulation gets copy(move) of the move the user configured
         return mspec
 
     def disp_move(labels, kinds=None):
